@@ -37,6 +37,37 @@ func init() {
 		}
 		return OkV(B(buf.Bytes()))
 	})
+	// one chain object written, edited in place (a blob replaced by other bytes of the SAME length, as an
+	// OCSP refresh does), written again: args (items) idx field
+	regOp("cc_write_history", func(a []Sx) Sx {
+		chain := certurl.CertChain{}
+		for _, it := range a[0].L {
+			chain = append(chain, augOf(it))
+		}
+		out := []Sx{}
+		for step := 0; step < 2; step++ {
+			var buf bytes.Buffer
+			err := chain.Write(&buf)
+			out = append(out, bytesR(buf.Bytes(), err))
+			if step == 0 {
+				if i := a[1].Int(); i < len(chain) {
+					flip := func(b []byte) []byte {
+						c := append([]byte{}, b...)
+						for k := range c {
+							c[k] ^= 0xff
+						}
+						return c
+					}
+					if a[2].IsSym("ocsp") && chain[i].OCSPResponse != nil {
+						chain[i].OCSPResponse = flip(chain[i].OCSPResponse)
+					} else if a[2].IsSym("sct") && chain[i].SCTList != nil {
+						chain[i].SCTList = flip(chain[i].SCTList)
+					}
+				}
+			}
+		}
+		return L(out...)
+	})
 	regOp("cc_read", func(a []Sx) Sx {
 		chain, err := certurl.ReadCertChain(bytes.NewReader(a[0].B))
 		if err != nil {
